@@ -356,6 +356,7 @@ type scen struct {
 	eventual bool
 	directed string // "" | race3 | emptybody | lateunlock: a scripted interleaving over a forced file set
 	pending2 bool   // the forced file set has 2-3 weeks (two or more reports to upload)
+	stubborn bool   // the server never accepts the OLDEST week (5xx / no answer), every other week gets 200
 	// deterministic sweeps of the thorough tier
 	small       bool  // the forced small file set (one week, two program builds)
 	sweepKill   int   // kill thread 0 after this many calls (0 = no)
@@ -413,6 +414,10 @@ func pickScen1() scen {
 	}
 	if tag == "c07" && rnd.Chance(4) {
 		return scen{kind: "race3", nthreads: 3, policy: "directed", outcomes: "all200", directed: "race3"}
+	}
+	if tag == "c08" && rnd.Chance(7) {
+		// one week the server never accepts: the other weeks must get through all the same
+		return scen{kind: "stubborn", nthreads: 1 + rnd.Intn(2), policy: "seq", outcomes: "mixed", eventual: true, small: true, pending2: true, stubborn: true}
 	}
 	if tag == "c08" && rnd.Chance(6) {
 		// a request in flight for more than a day: the lock of the run that sent it gets old
@@ -1241,12 +1246,23 @@ func scenario() {
 			if sc.fixedStatus >= 0 {
 				nextStatus = sc.fixedStatus
 			}
+			if sc.stubborn {
+				nextStatus = 200
+				if strings.HasSuffix(ci.path, "/"+weekList[0]) {
+					nextStatus = Pick(rnd, []int{500, 503, 0})
+				}
+			}
 			act = "step " + outcomeTag(nextStatus)
 			out.Note("post-" + outcomeTag(nextStatus))
 			if nextStatus != 0 && tag == "c08" && rnd.Chance(25) {
 				// the status line arrives, the body of the answer does not: the status decides all the same
 				nextStatus += vhttp.BodyCut
 				out.Note("post-answer-body-cut")
+			}
+			if nextStatus != 0 && nextStatus < vhttp.BodyCut && tag == "c08" && rnd.Chance(20) {
+				// the server takes half a minute over its answer: it has processed the request all the same
+				nextStatus += vhttp.Slow
+				out.Note("post-answer-slow")
 			}
 		}
 		nlog := len(vhttp.Log)
